@@ -100,12 +100,43 @@ Proof. exact oracle_sound. Qed.
    (a worker whose actor is stopping, so that nothing can be dispatched to it until its
    supervision event is handled, may hold max(L,1) jobs in Newest mode: one job when L = 0) *)
 Theorem C15_queue_bound : forall c L m ops,
-  c_discard c = Some (L, m) ->
+  c_discard c = Some (L, m) -> forallb (fun o => negb (is_update o)) ops = true ->
   let s := state_after c (fst (init c 0)) ops in
   len (filter (discardable c) (f_q s)) <= L
   /\ (factory_queueing c = false -> forall w, In w (f_pool s) ->
       len (w_q w) <= (if w_alive w then L else match m with Oldest => L | Newest => N.max L 1 end)).
 Proof. exact queue_bound. Qed.
+
+(* (F1') runtime UpdateSettings{discard_settings}.  The label installs the new settings for the
+   factory and for every existing worker and touches no queue (ractor does not shed
+   retroactively); it is the only label that changes them.  From ANY state in which settings
+   (L, m) are in force and every queue is within max(L, K) -- K = 0: within the limit; K > 0:
+   what a lowered limit found in the queues -- every further label sequence without another
+   update keeps all queues within max(L, K): the new limit holds for everything that arrives
+   after the update.  In Oldest mode a queue is within L after its next enqueue whatever it held. *)
+Theorem C15_update_installs : forall c s d,
+  f_stopped s = false ->
+  f_discard (fst (step c s (FUpdate d))) = d
+  /\ (f_stopped (fst (step c s (FUpdate d))) = false ->
+      f_q (fst (step c s (FUpdate d))) = f_q s /\ f_pool (fst (step c s (FUpdate d))) = f_pool s).
+Proof. exact step_update. Qed.
+
+Theorem C15_settings_change_only_on_update : forall c s o,
+  is_update o = false -> f_discard (fst (step c s o)) = f_discard s.
+Proof. exact step_disc. Qed.
+
+Theorem C15_queue_bound_after_update : forall c L m K s ops,
+  forallb (fun o => negb (is_update o)) ops = true ->
+  f_discard s = Some (L, m) -> QI c L m K s ->
+  let s' := state_after c s ops in
+  len (filter (discardable c) (f_q s')) <= N.max L K
+  /\ (factory_queueing c = false -> forall w, In w (f_pool s') ->
+      len (w_q w) <= N.max (if w_alive w then L else match m with Oldest => L | Newest => N.max L 1 end) K).
+Proof. exact queue_bound_from. Qed.
+
+Theorem C15_oldest_catches_up : forall c w j L,
+  wsettings c = Some (L, Oldest) -> len (w_q (fst (enqueue_job c w j))) <= L.
+Proof. exact enqueue_oldest_catches_up. Qed.
 
 (* (F2) which job is shed, and that it is reported exactly once.
    Newest: the arriving job itself, reported and rejected, queue untouched -- or it is queued.
@@ -226,11 +257,18 @@ Check (C15_bucket_no_deadline : forall c b ops,
   deadline b = None -> admitted c b ops <= balance b).
 
 Check (C15_queue_bound : forall c L m ops,
-  c_discard c = Some (L, m) ->
+  c_discard c = Some (L, m) -> forallb (fun o => negb (is_update o)) ops = true ->
   let s := state_after c (fst (init c 0)) ops in
   len (filter (discardable c) (f_q s)) <= L
   /\ (factory_queueing c = false -> forall w, In w (f_pool s) ->
       len (w_q w) <= (if w_alive w then L else match m with Oldest => L | Newest => N.max L 1 end))).
+Check (C15_queue_bound_after_update : forall c L m K s ops,
+  forallb (fun o => negb (is_update o)) ops = true ->
+  f_discard s = Some (L, m) -> QI c L m K s ->
+  let s' := state_after c s ops in
+  len (filter (discardable c) (f_q s')) <= N.max L K
+  /\ (factory_queueing c = false -> forall w, In w (f_pool s') ->
+      len (w_q w) <= N.max (if w_alive w then L else match m with Oldest => L | Newest => N.max L 1 end) K)).
 Check (C15_resize_converges : forall c ops,
   let s := state_after c (fst (init c 0)) ops in
   f_stopped s = false -> all_available (f_pool s) = true -> forallb w_alive (f_pool s) = true ->
@@ -327,6 +365,10 @@ Print Assumptions C15_router_window.
 Print Assumptions C15_router_rejects.
 Print Assumptions C15_bucket_oracle_sound.
 Print Assumptions C15_queue_bound.
+Print Assumptions C15_update_installs.
+Print Assumptions C15_settings_change_only_on_update.
+Print Assumptions C15_queue_bound_after_update.
+Print Assumptions C15_oldest_catches_up.
 Print Assumptions C15_shed_newest.
 Print Assumptions C15_shed_oldest.
 Print Assumptions C15_shed_oldest_identity.
